@@ -421,6 +421,8 @@ func c12Report(R *ev.Run, dir string, id int, typ, buckets string, lats []time.D
 	}
 	f.Close()
 	R.Trans(1)
+	// the output path already holds an older, longer report (a re-used file name): what is rendered now replaces it
+	os.WriteFile(out, []byte(strings.Repeat("[5ms,   6ms]   1  10.00%  #######\n", 40)+"{\"0\": 7}\n"), 0o644)
 	if err := c12Catch(func() error { return report([]string{in}, typ, out, 0, buckets) }); err != nil {
 		return "", err
 	}
